@@ -38,6 +38,76 @@ def show_mat(e):
     return repr(e)
 
 
+def _ival(t, env):
+    """value of an unsigned integer term under env (atom -> int); None when not evaluable"""
+    t = strip_casts(t)
+    if t in env:
+        return env[t]
+    k = tag(t)
+    if k == 'const' and isinstance(t[2], int):
+        return t[2]
+    if k == 'bin':
+        a, b = _ival(t[2], env), _ival(t[3], env)
+        if a is None or b is None:
+            return None
+        op = t[1]
+        if op in ('Add', 'AddO'):
+            return a + b
+        if op in ('Sub', 'SubO'):
+            return a - b if a >= b else None
+        if op in ('Mul', 'MulO'):
+            return a * b
+        if op == 'Div':
+            return a // b if b else None
+        if op == 'Rem':
+            return a % b if b else None
+        return None
+    if k == 'call' and short(t[1]) in ('min', 'max') and len(t[2]) == 2:
+        a, b = _ival(t[2][0], env), _ival(t[2][1], env)
+        if a is None or b is None:
+            return None
+        return min(a, b) if short(t[1]) == 'min' else max(a, b)
+    return None
+
+
+def _iatoms(t, out):
+    t = strip_casts(t)
+    k = tag(t)
+    if k == 'bin':
+        _iatoms(t[2], out)
+        _iatoms(t[3], out)
+    elif k == 'call' and short(t[1]) in ('min', 'max') and len(t[2]) == 2:
+        _iatoms(t[2][0], out)
+        _iatoms(t[2][1], out)
+    elif k != 'const':
+        out.add(t)
+
+
+def _tile_models(it_count, size, limit):
+    """tiles [o*S, min(o*S + S, L)) for o in 0..count: 'cover' if they are exactly 0..L on every small model, a witness dict if some model
+    leaves indices out, None if the terms are not evaluable"""
+    import itertools
+    ats = set()
+    for t in (it_count, size, limit):
+        _iatoms(t, ats)
+    ats = sorted(ats, key=repr)
+    if not ats or len(ats) > 5:
+        return None
+    ok_models = 0
+    for vals in itertools.product(range(1, 7), repeat=len(ats)):
+        env = dict(zip(ats, vals))
+        c, S, L = _ival(it_count, env), _ival(size, env), _ival(limit, env)
+        if c is None or S is None or L is None or S <= 0:
+            continue
+        covered = set()
+        for o in range(c):
+            covered.update(range(o * S, min(o * S + S, L)))
+        if covered != set(range(L)):
+            return {'env': env, 'covered': len(covered), 'L': L}
+        ok_models += 1
+    return 'cover' if ok_models >= 20 else None
+
+
 class MatProblem(Exception):
     def __init__(self, msg, definite=False):
         Exception.__init__(self, msg)
@@ -182,6 +252,22 @@ class MatEngine:
         self._cur_bb = s.bb
         self._cur_ix = ix
         if not (tag(v) == 'bin' and v[1] == 'Add' and v[4] == 'f64'):
+            # register accumulator: `let mut t = 0.; for k in K { t += x*y }; c[idx] = t`.  If the plain store sits inside a loop whose variable
+            # does not index the output but only delimits K (a panel / tile of the contracted index), every panel overwrites the previous one
+            if tag(v) == 'local':
+                defs = [st for st in f.stores() if st.target == v]
+                accs = [st for st in defs if tag(st.value) == 'bin' and st.value[1] == 'Add' and v in (st.value[2], st.value[3])]
+                if accs and any(tag(st.value) == 'const' for st in defs):
+                    out_items = {z for z in subterms(s.target[2]) if tag(z) == 'item'}
+                    loops = f.loop_info()
+                    k_loops = [li for li in loops if accs[0].bb in li['blocks'] and s.bb not in li['blocks'] and li['item'] is not None]
+                    tile_loops = [li for li in loops if s.bb in li['blocks'] and li['item'] is not None and li['item'] not in out_items]
+                    for kl in k_loops:
+                        for tl in tile_loops:
+                            if any(z == tl['item'] for z in subterms(kl['iter'])):
+                                raise MatProblem('the product buffer is assigned (`=`), not accumulated, once per panel %s of the contracted index (panels over %s): '
+                                                 'each panel overwrites the sum of the earlier ones, so only the last panel of the inner dimension contributes' % (
+                                                     show(kl['iter'])[:40], show(tl['iter'])[:40]), definite=True)
             raise MatProblem('store into the product buffer is not an accumulation')
         acc, prod = (v[2], v[3]) if v[2] == s.target else ((v[3], v[2]) if v[3] == s.target else (None, None))
         if acc is None or not (tag(prod) == 'bin' and prod[1] == 'Mul'):
@@ -318,6 +404,15 @@ class MatEngine:
                                 return ('BAD', 'the tile loop runs %s times over tiles of %s covering 0..%s: %s' % (
                                     pshow(hs, show), show(sp), show(L), 'the count is taken from another dimension' if strip_casts(X[2]) != strip_casts(L)
                                     else 'the last, partial tile is dropped'))
+                        # any other count / tile-size expressions: decide coverage of 0..L on small models of the integer atoms (all values
+                        # 1..6): a model where the tiles do not cover 0..L exactly is a witness; none found = covering on the models tried
+                        w = _tile_models(it_count=ix.item_loop[o]['iter'][2], size=sp, limit=L)
+                        if w == 'cover':
+                            return ({}, poly(L))
+                        if isinstance(w, dict):
+                            return ('BAD', 'the tile loop runs %s times over tiles of %s covering 0..%s: with %s the tiles cover only %s of the %s indices' % (
+                                show(strip_casts(ix.item_loop[o]['iter'][2]))[:40], show(sp)[:30], show(L)[:20],
+                                ', '.join('%s = %d' % (show(k_)[:20], v_) for k_, v_ in sorted(w['env'].items(), key=lambda kv: show(kv[0]))), w['covered'], w['L']))
         return None
 
     # ------------------------------------------------------------------ matmul by flags
